@@ -170,10 +170,24 @@ def run_unit(unit, ctx):
     except Exception as e:  # noqa: BLE001
         R.add([K.V(K.exc_key("compile", e), f"python.compile(strapdown) raised ({tag}): {K.exc_text(e)}", traceback=K.tb_text(e))])
         return R.out()
+    prev = None
     for pi in range(PTS[ctx["tier"]]["compiled"]):
         p, norm, kind = gen_point(rng, names)
         for s in cal_syms:
             p[s.name] = p0[s.name]
+        if pi % 10 in (7, 8):
+            # a pair of consecutive samples that differ only where one has -1.0 and the other -2.0
+            # (a one-variable sweep over small integers): distinct inputs that Python hashes alike
+            if pi % 10 == 7:
+                chosen = rng.sample([n for n in names if n not in [s.name for s in cal_syms] and n != "dt"], 3)
+                for n in chosen:
+                    p[n] = -1.0
+                prev = (dict(p), chosen)
+            elif prev is not None:
+                p = dict(prev[0])
+                for n in prev[1]:
+                    p[n] = -2.0
+                R.stats.inc("hash_alike_consecutive_samples")
         use_array = None
         if pi % 10 == 5:
             # integer lattice point handed over as an int64 array through State.from_data
